@@ -492,6 +492,75 @@ def parse_errors_propagate(ctx, rule):
                      'parse-error-swallowed')
 
 
+MUTATORS = ('sort', 'append', 'remove', 'insert', 'extend', 'pop', 'clear', 'reverse', 'update', 'add', 'discard', 'setdefault', 'popitem')
+
+
+def config_not_mutated(ctx, rule):
+    """the loaded configuration is shared by every IKE_SA of a connection and by every negotiation on it: nothing rearranges it in
+    place.  (1) the value classes of message.py (Proposal, Transform, TrafficSelector) have no method that changes the receiver - also
+    not through a shallow copy, which shares its lists; (2) IkeSa never calls a mutator on an object that it reached from
+    self.configuration, from the policy lookup, or that was handed in as an argument."""
+    from ..sval import strip_ids, NONE
+    from .. import tq
+    prog = ctx.prog
+    me = ('param', 'self')
+
+    def shares_self(t):
+        # self, or a shallow copy of self
+        return t == me or (tq.is_call(t) and isinstance(t[1], str) and t[1] in ('copy.copy', 'builtins.copy') and
+                           list(tq.args(t).values())[:1] == [me])
+    n = 0
+    for cname in ('Proposal', 'Transform', 'TrafficSelector'):
+        cls = prog.cls('message.' + cname)
+        for fi in cls.methods.values():
+            if fi.name == '__init__' or not isinstance(fi.node, ast.FunctionDef):
+                continue
+            n += 1
+            S = ctx.sval(fi)
+            bad = []
+            for c in S.calls:
+                r = strip_ids(c.recv) if c.recv is not None else NONE
+                if c.name in MUTATORS and r[0] == 'attr' and shares_self(r[1]):
+                    bad.append('%s.%s(...)' % (tq.text(r, 60), c.name))
+            for t, v, pc, st, _ in S.stores:
+                t = strip_ids(t)
+                if t[0] in ('attr', 'index') and (t[1] == me or (t[1][0] == 'attr' and shares_self(t[1][1]))):
+                    bad.append('%s = ...' % tq.text(t, 60))
+            ctx.check(not bad, rule, '%s.%s does not change the object it is called on' % (cname, fi.name),
+                      key=(rule, 'value-class-mutated', cname, fi.name), site=ctx.site(fi, fi.node), detail={'mutations': bad})
+    ikesa = prog.cls('ikesa.IkeSa')
+    for fi in ikesa.methods.values():
+        if not isinstance(fi.node, ast.FunctionDef):
+            continue
+        S = ctx.sval(fi)
+        params = {('param', p) for p in fi.call_params()}
+
+        def from_config(t):
+            # reached from the configuration, from the policy lookup, handed in by the caller - or the inside of a Proposal / SA
+            # payload, wherever it was found: requests are built around the configured Proposal objects themselves
+            return any(x == ('attr', me, 'configuration') or x in params or
+                       (tq.is_call(x) and isinstance(x[1], str) and x[1].endswith('._get_ipsec_configuration')) or
+                       (x[0] == 'attr' and x[2] in ('transforms', 'proposals', 'protect'))
+                       for x in tq.subterms(t) if isinstance(x, tuple) and x)
+        for c in S.calls:
+            r = strip_ids(c.recv) if c.recv is not None else NONE
+            if c.name in MUTATORS and r[0] in ('attr', 'index', 'param') and from_config(r):
+                n += 1
+                ctx.bad(rule, (rule, 'config-mutated', fi.qual, c.name), '%s: `%s.%s(...)` changes an object reached from the configuration or '
+                        'handed in by the caller' % (fi.name, tq.text(r, 80), c.name), ctx.site(fi, c.node), {})
+    ctx.floor('%s methods examined for in-place changes' % rule, n, 10, rule=rule)
+
+
+def from_exception_total(ctx, esc, rule):
+    """PayloadNOTIFY.from_exception answers for *any* exception object: the generic `except Exception` arm of the request processing hands
+    it whatever was raised, and runs it before the response is stored, the Message ID counted and the IKE_SA marked DELETED - if it
+    raised, all three would be skipped"""
+    fe = ctx.func('message.PayloadNOTIFY.from_exception')
+    out = esc.escapes(fe)
+    ctx.check(not out, rule, 'PayloadNOTIFY.from_exception cannot raise, whatever exception it is given', key=(rule, 'from-exception-total'),
+              site=ctx.site(fe, fe.node), detail={'can raise': {k: sorted(v)[:3] for k, v in out.items()}})
+
+
 def lookup_side(pc, key):
     """which side of a table lookup by `key` a path condition is on: 'miss' when the KeyError of the lookup was caught or the membership
     test `key in <table>` failed, 'hit' when nothing else constrains the path (at most the membership test held), else None.
